@@ -441,7 +441,7 @@ def run(ctx):
     # themselves (malformed bytes, a send that never returned, a race report, a panic ...) are never retried.
     TIMED = {"template-not-refreshed", "peer-close-not-noticed", "peer-close-noticed-late", "send-succeeded-after-peer-close",
              "datagram-after-close", "bytes-after-close", "app-message-missing", "close-did-not-return", "background-goroutine-left",
-             "send-failed-while-open"}
+             "send-failed-while-open", "send-succeeded-after-failed-refresh"}
     retried = [i for i, v in enumerate(verdicts) if (v or "").startswith("fails ") and (v.split(" ") + [""])[1] in TIMED]
     for i in retried[:6]:
         o2, e2, rc2, race2 = run_harness(ctx.harness, [lines[i]], ctx.workdir, "retry%d" % i, 1, 180)
